@@ -297,6 +297,14 @@ func (d DocSpec) encrypted(field string) bool {
 	return false
 }
 
+// denied: node 1 is refused the individual key of this field. An individual key exists only for
+// a listed field that had a value (or null) in the creating write; a listed field written later
+// has none (it is in clear - the listed finding - or, once that is repaired for document-level
+// encryption, under the document key, which node 1 holds).
+func (d DocSpec) denied(field string) bool {
+	return contains(d.Deny, field) && contains(d.EncFields, field) && d.createdWith(field)
+}
+
 func (d DocSpec) createdWith(field string) bool {
 	for _, fv := range d.Create {
 		if fv.F == field {
@@ -310,7 +318,7 @@ func (d DocSpec) createdWith(field string) bool {
 // switch of the respective known finding applies to this case.
 func drawCase(t *rapid.T, avoidDocLate, avoidFieldLate bool) Case {
 	g := &valGen{}
-	c := Case{Branchable: rapid.IntRange(0, 9).Draw(t, "branchable") == 0}
+	c := Case{Branchable: rapid.IntRange(0, 9).Draw(t, "branchable") == 9}
 	seed := func(l string) uint64 { return rapid.Uint64().Draw(t, l) }
 
 	nd := rapid.IntRange(1, 2).Draw(t, "ndocs")
@@ -334,7 +342,7 @@ func drawCase(t *rapid.T, avoidDocLate, avoidFieldLate bool) Case {
 			if !contains(present, f) {
 				continue
 			}
-			if !isCounter(f) && rapid.IntRange(0, 9).Draw(t, "null:"+f) == 0 {
+			if !isCounter(f) && rapid.IntRange(0, 9).Draw(t, "null:"+f) == 9 {
 				d.Create = append(d.Create, FieldVal{F: f, V: Val{K: "null"}})
 				continue
 			}
@@ -354,7 +362,7 @@ func drawCase(t *rapid.T, avoidDocLate, avoidFieldLate bool) Case {
 			}
 			d.Create = append(kept, FieldVal{F: "tag", V: g.make("tag", seed("v:tag"), gql)})
 		}
-		if (d.Mode == "fields" || d.Mode == "both") && rapid.IntRange(0, 5).Draw(t, "deny") == 0 {
+		if (d.Mode == "fields" || d.Mode == "both") && rapid.IntRange(0, 5).Draw(t, "deny") == 5 {
 			d.Deny = subset(t, "deny", d.EncFields, 50)
 		}
 		c.Docs = append(c.Docs, d)
@@ -392,7 +400,7 @@ func drawCase(t *rapid.T, avoidDocLate, avoidFieldLate bool) Case {
 						continue
 					}
 				}
-				if !isCounter(f) && rapid.IntRange(0, 11).Draw(t, "null") == 0 {
+				if !isCounter(f) && rapid.IntRange(0, 11).Draw(t, "null") == 11 {
 					op.Set = append(op.Set, FieldVal{F: f, V: Val{K: "null"}})
 					continue
 				}
